@@ -3,18 +3,20 @@ import OjgVerif.JPMut.LemmasSteps
 
 `modF_eq`: on well-formed data, for a path without descent whose unions list no member twice and whose
 slices — in the reading of the code — select the indexes of the specification on the arrays they meet
-(`GoodAt`), the traversal of modify.go ends normally and leaves `updAll m.eff (locs x d) d`: the tree
+(`GoodAt σ`), the traversal of modify.go ends normally and leaves `updAll m.eff (locsG σ x d) d`: the tree
 edited with the modifier at exactly the locations the path selects. -/
 namespace OjgVerif.JPMut
 open OjgVerif OjgVerif.JPath
 
+variable {σ : SliceFn} [NodupSlice σ]
+
 /-! ## the selected locations, one level at a time -/
 
-theorem locs_nil (d : JV) : locs [] d = [[]] := rfl
+theorem locs_nil (d : JV) : locsG σ [] d = [[]] := rfl
 
 theorem mem_locs_cons (f : Frag) (rest : List Frag) (d : JV) (p : Path) :
-    p ∈ locs (f :: rest) d ↔ ∃ m ∈ sel f d, ∃ q ∈ locs rest m.2, p = m.1 ++ q := by
-  simp only [locs, eval, List.mem_map, List.mem_flatMap]
+    p ∈ locsG σ (f :: rest) d ↔ ∃ m ∈ selG σ f d, ∃ q ∈ locsG σ rest m.2, p = m.1 ++ q := by
+  simp only [locsG, evalG, List.mem_map, List.mem_flatMap]
   constructor
   · rintro ⟨a, ⟨m, hm, b, hb, rfl⟩, rfl⟩
     exact ⟨m, hm, b.1, ⟨b, hb, rfl⟩, rfl⟩
@@ -22,21 +24,21 @@ theorem mem_locs_cons (f : Frag) (rest : List Frag) (d : JV) (p : Path) :
     exact ⟨(m.1 ++ b.1, b.2), ⟨m, hm, b, hb, rfl⟩, rfl⟩
 
 /-- everything the fragment selects in `d` is a member of `d` -/
-def Shape (f : Frag) (d : JV) : Prop := ∀ m ∈ sel f d, ∃ l, m.1 = [l] ∧ child? l d = some m.2
+def Shape (σ : SliceFn) (f : Frag) (d : JV) : Prop := ∀ m ∈ selG σ f d, ∃ l, m.1 = [l] ∧ child? l d = some m.2
 
-theorem hasNil_locs_cons (f : Frag) (rest : List Frag) (d : JV) (hs : Shape f d) : hasNil (locs (f :: rest) d) = false := by
-  cases h : hasNil (locs (f :: rest) d) with
+theorem hasNil_locs_cons (f : Frag) (rest : List Frag) (d : JV) (hs : Shape σ f d) : hasNil (locsG σ (f :: rest) d) = false := by
+  cases h : hasNil (locsG σ (f :: rest) d) with
   | false => rfl
   | true =>
-    obtain ⟨m, hm, q, _, e⟩ := (mem_locs_cons f rest d []).1 ((hasNil_iff _).1 h)
+    obtain ⟨m, hm, q, _, e⟩ := (mem_locs_cons (σ := σ) f rest d []).1 ((hasNil_iff _).1 h)
     obtain ⟨l, hl, _⟩ := hs m hm
     rw [hl] at e
     cases e
 
 /-- below a selected member: the locations the rest of the path selects in it -/
-theorem strip_locs_sel (f : Frag) (rest : List Frag) (d : JV) (hs : Shape f d) (l : Loc) (c : JV)
-    (hc : child? l d = some c) (hsel : ([l], c) ∈ sel f d) :
-    SameSet (strip l (locs (f :: rest) d)) (locs rest c) := by
+theorem strip_locs_sel (f : Frag) (rest : List Frag) (d : JV) (hs : Shape σ f d) (l : Loc) (c : JV)
+    (hc : child? l d = some c) (hsel : ([l], c) ∈ selG σ f d) :
+    SameSet (strip l (locsG σ (f :: rest) d)) (locsG σ rest c) := by
   intro q
   rw [mem_strip, mem_locs_cons]
   constructor
@@ -53,9 +55,9 @@ theorem strip_locs_sel (f : Frag) (rest : List Frag) (d : JV) (hs : Shape f d) (
     exact ⟨([l], c), hsel, q, hq, rfl⟩
 
 /-- below a member that is not selected: nothing -/
-theorem strip_locs_not (f : Frag) (rest : List Frag) (d : JV) (hs : Shape f d) (l : Loc) (c : JV)
-    (hc : child? l d = some c) (hsel : ([l], c) ∉ sel f d) :
-    SameSet (strip l (locs (f :: rest) d)) [] := by
+theorem strip_locs_not (f : Frag) (rest : List Frag) (d : JV) (hs : Shape σ f d) (l : Loc) (c : JV)
+    (hc : child? l d = some c) (hsel : ([l], c) ∉ selG σ f d) :
+    SameSet (strip l (locsG σ (f :: rest) d)) [] := by
   intro q
   rw [mem_strip, mem_locs_cons]
   constructor
@@ -76,23 +78,23 @@ def isDescentF : Frag → Bool
 theorem selMember_scalar (c : JV) (hc : isContainer c = false) (mb : Member) : selMember c mb = [] := by
   cases mb <;> cases c <;> simp_all [selMember, isContainer]
 
-theorem sel_scalar (f : Frag) (c : JV) (hf : isDescentF f = false) (hc : isContainer c = false) : sel f c = [] := by
+theorem sel_scalar (f : Frag) (c : JV) (hf : isDescentF f = false) (hc : isContainer c = false) : selG σ f c = [] := by
   cases f with
   | descent => simp [isDescentF] at hf
-  | child k => cases c <;> simp_all [sel, selMember, isContainer]
-  | nth i => cases c <;> simp_all [sel, selMember, isContainer]
-  | wild => cases c <;> simp_all [sel, members, isContainer]
+  | child k => cases c <;> simp_all [selG, sel, selMember, isContainer]
+  | nth i => cases c <;> simp_all [selG, sel, selMember, isContainer]
+  | wild => cases c <;> simp_all [selG, sel, members, isContainer]
   | union ms =>
-    simp only [sel]
+    simp only [selG, sel]
     induction ms with
     | nil => rfl
     | cons mb r ih => simp only [List.flatMap_cons, selMember_scalar c hc mb, List.nil_append]; exact ih rfl
-  | slice s e t => cases c <;> simp_all [sel, isContainer]
-  | filter p => cases c <;> simp_all [sel, members, isContainer]
+  | slice s e t => cases c <;> simp_all [selG, sel, isContainer]
+  | filter p => cases c <;> simp_all [selG, sel, members, isContainer]
 
 theorem locs_scalar (g : Frag) (r : List Frag) (c : JV) (hg : isDescentF g = false) (hc : isContainer c = false) :
-    locs (g :: r) c = [] := by
-  simp [locs, eval, sel_scalar g c hg hc]
+    locsG σ (g :: r) c = [] := by
+  simp [locsG, evalG, sel_scalar (σ := σ) g c hg hc]
 
 theorem updAll_here (m : JV → JV) (c : JV) : updAll m [[]] c = m c := by
   rw [updAll_eq]
@@ -146,8 +148,8 @@ theorem modSeq_pure (dev : Dev) (m : Modifier) : ∀ (steps : List Loc) (d : JV)
 
 /-- the last fragment: the modifier on exactly the selected members -/
 theorem modSeq_eq (dev : Dev) (m : Modifier) (steps : List Loc) (f : Frag) (d : JV) (hw : TopNodup d)
-    (hok : StepsOK steps f d) :
-    modSeq false dev false m false steps d = ⟨updAll m.eff (locs [f] d) d, .go⟩ := by
+    (hok : StepsOK σ steps f d) :
+    modSeq false dev false m false steps d = ⟨updAll m.eff (locsG σ [f] d) d, .go⟩ := by
   rw [modSeq_pure]
   have hst := visitD_st false false (fun _ c => (⟨m.eff c, .go⟩ : R)) (fun _ _ => rfl) steps false d
   obtain ⟨h1, _⟩ := visitD_go false false (fun _ c => (⟨m.eff c, .go⟩ : R)) (fun _ _ => rfl) steps false d hok.nodup hw hst
@@ -157,16 +159,16 @@ theorem modSeq_eq (dev : Dev) (m : Modifier) (steps : List Loc) (f : Frag) (d : 
     | mk dd ss => rw [hv] at hst; simp only at hst; rw [hst]
   rw [hd, h1]
   congr 1
-  rw [updAll_eq, hasNil_locs_cons f [] d hok.shape]
+  rw [updAll_eq, hasNil_locs_cons (σ := σ) f [] d hok.shape]
   simp only [Bool.false_eq_true, if_false]
   apply mapKids_congr d hw
   intro l c hc
   by_cases hl : l ∈ steps
   · have hsel := (hok.mem l c hc).1 hl
-    rw [updAll_congr m.eff c _ _ (strip_locs_sel f [] d hok.shape l c hc hsel), locs_nil, updAll_here]
+    rw [updAll_congr m.eff c _ _ (strip_locs_sel (σ := σ) f [] d hok.shape l c hc hsel), locs_nil, updAll_here]
     simp [hl, pass]
-  · have hsel : ([l], c) ∉ sel f d := fun h => hl ((hok.mem l c hc).2 h)
-    rw [updAll_congr m.eff c _ _ (strip_locs_not f [] d hok.shape l c hc hsel), updAll_nil]
+  · have hsel : ([l], c) ∉ selG σ f d := fun h => hl ((hok.mem l c hc).2 h)
+    rw [updAll_congr m.eff c _ _ (strip_locs_not (σ := σ) f [] d hok.shape l c hc hsel), updAll_nil]
     simp [hl]
 
 /-! ## the hypotheses of the main theorems -/
@@ -174,30 +176,30 @@ theorem modSeq_eq (dev : Dev) (m : Modifier) (steps : List Loc) (f : Frag) (d : 
 /-- the fragment behaves in modify.go as in the specification on the value `e`: a union lists no member
 of `e` twice; a slice — as modify.go reads it — selects in the array `e` the indexes the specification
 selects; a filter does not meet the reflect branch that deletes on null; no descent -/
-def GoodAt (dev : Dev) (f : Frag) (e : JV) : Prop :=
+def GoodAt (σ : SliceFn) (dev : Dev) (f : Frag) (e : JV) : Prop :=
   match f with
   | .child _ => True
   | .nth _ => True
   | .wild => True
   | .union ms => (unionLocs ms e).Nodup
-  | .slice s e' t => ∀ xs, e = .arr xs → modIdx dev xs.length s e' t = sliceIdx xs.length s e' t
+  | .slice s e' t => ∀ xs, e = .arr xs → modIdx dev xs.length s e' t = σ xs.length s e' t
   | .filter _ => dev.filterMapNil = false ∨ ∀ kvs, e ≠ .obj kvs
   | .descent => False
 
 /-- every fragment of the path is good on the values it is applied to -/
-def GoodPath (dev : Dev) : List Frag → JV → Prop
+def GoodPath (σ : SliceFn) (dev : Dev) : List Frag → JV → Prop
   | [], _ => True
-  | f :: r, d => GoodAt dev f d ∧ ∀ m ∈ sel f d, GoodPath dev r m.2
+  | f :: r, d => GoodAt σ dev f d ∧ ∀ m ∈ selG σ f d, GoodPath σ dev r m.2
 
 /-- the path has no recursive descent -/
 def NoDescent (x : List Frag) : Prop := ∀ f ∈ x, isDescentF f = false
 
-theorem GoodAt.notDescent {dev : Dev} {f : Frag} {e : JV} (h : GoodAt dev f e) : isDescentF f = false := by
+theorem GoodAt.notDescent {dev : Dev} {f : Frag} {e : JV} (h : GoodAt σ dev f e) : isDescentF f = false := by
   cases f <;> simp_all [GoodAt, isDescentF]
 
 theorem stepsOK_sortedKeys (kvs : List (Bytes × JV)) (hw : (keysOf kvs).Nodup) :
-    StepsOK ((sortedKeys kvs).map Loc.key) .wild (.obj kvs) := by
-  have h := stepsOK_wild (.obj kvs) hw
+    StepsOK σ ((sortedKeys kvs).map Loc.key) .wild (.obj kvs) := by
+  have h := stepsOK_wild (σ := σ) (.obj kvs) hw
   refine h.perm (nodup_map_inj Loc.key (fun a b hab => by injection hab) (sortedKeys_nodup kvs hw)) ?_
   intro l
   simp only [List.mem_map, mem_keyLocs]
@@ -205,54 +207,54 @@ theorem stepsOK_sortedKeys (kvs : List (Bytes × JV)) (hw : (keysOf kvs).Nodup) 
   · rintro ⟨k, hk, rfl⟩; exact ⟨k, (mem_sortedKeys k kvs).1 hk, rfl⟩
   · rintro ⟨k, hk, rfl⟩; exact ⟨k, (mem_sortedKeys k kvs).2 hk, rfl⟩
 
-theorem stepsOK_scalar_nil (f : Frag) (d : JV) (hf : isDescentF f = false) (hd : isContainer d = false) : StepsOK [] f d := by
+theorem stepsOK_scalar_nil (f : Frag) (d : JV) (hf : isDescentF f = false) (hd : isContainer d = false) : StepsOK σ [] f d := by
   refine ⟨List.nodup_nil, ?_, ?_⟩
-  · intro m hm; rw [sel_scalar f d hf hd] at hm; cases hm
+  · intro m hm; rw [sel_scalar (σ := σ) f d hf hd] at hm; cases hm
   · intro l c hc; rw [child?_scalar l d hd] at hc; cases hc
 
 /-- the members the last fragment of modify.go applies the modifier to are the selected ones -/
-theorem modLastSteps_ok (dev : Dev) (f : Frag) (d : JV) (hw : TopNodup d) (hg : GoodAt dev f d) :
-    StepsOK (modLastSteps dev f d) f d := by
+theorem modLastSteps_ok (dev : Dev) (f : Frag) (d : JV) (hw : TopNodup d) (hg : GoodAt σ dev f d) :
+    StepsOK σ (modLastSteps dev f d) f d := by
   cases f with
-  | child k => exact stepsOK_child k d
-  | nth i => exact stepsOK_nth i d
+  | child k => exact stepsOK_child (σ := σ) k d
+  | nth i => exact stepsOK_nth (σ := σ) i d
   | wild =>
-    have h := stepsOK_wild d hw
+    have h := stepsOK_wild (σ := σ) d hw
     cases d <;> exact h
-  | union ms => exact stepsOK_union ms d hg
+  | union ms => exact stepsOK_union (σ := σ) ms d hg
   | slice s e t =>
-    have h := stepsOK_slice s e t d (modIdx dev · s e t) (fun xs h => hg xs h) (fun xs _ => sliceIdx_nodup _ s e t)
+    have h := stepsOK_slice (σ := σ) s e t d (modIdx dev · s e t) (fun xs h => hg xs h) (fun xs _ => NodupSlice.nodup _ s e t)
     cases d <;> exact h
   | filter p =>
     cases d with
-    | arr xs => exact stepsOK_filter p _ hw _ (stepsOK_wild (.arr xs) hw)
-    | obj kvs => exact stepsOK_filter p _ hw _ (stepsOK_sortedKeys kvs hw)
-    | _ => exact stepsOK_scalar_nil _ _ rfl rfl
+    | arr xs => exact stepsOK_filter (σ := σ) p _ hw _ (stepsOK_wild (σ := σ) (.arr xs) hw)
+    | obj kvs => exact stepsOK_filter (σ := σ) p _ hw _ (stepsOK_sortedKeys (σ := σ) kvs hw)
+    | _ => exact stepsOK_scalar_nil (σ := σ) _ _ rfl rfl
   | descent => cases hg
 
 /-- the members an inner fragment of modify.go hands on are the selected ones -/
-theorem modSteps_ok (dev : Dev) (f : Frag) (d : JV) (hw : TopNodup d) (hg : GoodAt dev f d) :
-    StepsOK (modSteps dev f d) f d := by
+theorem modSteps_ok (dev : Dev) (f : Frag) (d : JV) (hw : TopNodup d) (hg : GoodAt σ dev f d) :
+    StepsOK σ (modSteps dev f d) f d := by
   cases f with
-  | child k => exact stepsOK_child k d
-  | nth i => exact stepsOK_nth i d
+  | child k => exact stepsOK_child (σ := σ) k d
+  | nth i => exact stepsOK_nth (σ := σ) i d
   | wild =>
-    have h := stepsOK_wild d hw
+    have h := stepsOK_wild (σ := σ) d hw
     cases d with
     | arr xs => exact h.reverse
     | obj kvs => exact h.reverse
     | _ => exact h
-  | union ms => exact (stepsOK_union ms d hg).reverse
+  | union ms => exact (stepsOK_union (σ := σ) ms d hg).reverse
   | slice s e t =>
-    have h := stepsOK_slice s e t d (modIdx dev · s e t) (fun xs h => hg xs h) (fun xs _ => sliceIdx_nodup _ s e t)
+    have h := stepsOK_slice (σ := σ) s e t d (modIdx dev · s e t) (fun xs h => hg xs h) (fun xs _ => NodupSlice.nodup _ s e t)
     cases d with
     | arr xs => exact h.reverse
     | _ => exact h
   | filter p =>
     cases d with
-    | arr xs => exact stepsOK_filter p _ hw _ (stepsOK_wild (.arr xs) hw)
-    | obj kvs => exact stepsOK_filter p _ hw _ (stepsOK_wild (.obj kvs) hw)
-    | _ => exact stepsOK_scalar_nil _ _ rfl rfl
+    | arr xs => exact stepsOK_filter (σ := σ) p _ hw _ (stepsOK_wild (σ := σ) (.arr xs) hw)
+    | obj kvs => exact stepsOK_filter (σ := σ) p _ hw _ (stepsOK_wild (σ := σ) (.obj kvs) hw)
+    | _ => exact stepsOK_scalar_nil (σ := σ) _ _ rfl rfl
   | descent => cases hg
 
 /-! ## `modify` never stops early when it is not a One form on simple data -/
@@ -347,12 +349,12 @@ theorem R_eta (r : R) (h : r.st = .go) : r = ⟨r.d, .go⟩ := by
 
 /-- modify.go, all matches, simple data: the tree edited with the modifier at exactly the selected locations -/
 theorem modF_eq (dev : Dev) (m : Modifier) : ∀ (x : List Frag), x ≠ [] → NoDescent x → ∀ (fl : Bool) (d : JV), WF d →
-    GoodPath dev x d → modF false dev false m x fl d = ⟨updAll m.eff (locs x d) d, .go⟩
+    GoodPath σ dev x d → modF false dev false m x fl d = ⟨updAll m.eff (locsG σ x d) d, .go⟩
   | [], h, _, _, _, _, _ => absurd rfl h
   | [f], _, _, fl, d, hw, hg => by
-    have hgf : GoodAt dev f d := hg.1
+    have hgf : GoodAt σ dev f d := hg.1
     have hnd := hgf.notDescent
-    have hok := modLastSteps_ok dev f d (WF_top d hw) hgf
+    have hok := modLastSteps_ok (σ := σ) dev f d (WF_top d hw) hgf
     have e1 : modF false dev false m [f] fl d = modLast false dev false m f d := by
       cases f <;> simp_all [modF, isDescentF]
     rw [e1]
@@ -373,10 +375,10 @@ theorem modF_eq (dev : Dev) (m : Modifier) : ∀ (x : List Frag), x ≠ [] → N
     · simp only [hfo, Bool.false_eq_true, if_false]
       exact modSeq_eq dev m _ f d (WF_top d hw) hok
   | f :: g :: r, _, hnd', fl, d, hw, hg => by
-    have hgf : GoodAt dev f d := hg.1
+    have hgf : GoodAt σ dev f d := hg.1
     have hnd := hgf.notDescent
     have hndg : isDescentF g = false := hnd' g (by simp)
-    have hok := modSteps_ok dev f d (WF_top d hw) hgf
+    have hok := modSteps_ok (σ := σ) dev f d (WF_top d hw) hgf
     have e1 : modF false dev false m (f :: g :: r) fl d =
         visitD (contOnly f) dev.descentSiblings (modF false dev false m (g :: r)) false (modSteps dev f d) d := by
       cases f <;> simp_all [modF, isDescentF]
@@ -388,13 +390,13 @@ theorem modF_eq (dev : Dev) (m : Modifier) : ∀ (x : List Frag), x ≠ [] → N
     obtain ⟨h1, _⟩ := visitD_go (contOnly f) dev.descentSiblings _ hk (modSteps dev f d) false d hok.nodup (WF_top d hw) hst
     rw [R_eta _ hst, h1]
     congr 1
-    rw [updAll_eq, hasNil_locs_cons f (g :: r) d hok.shape]
+    rw [updAll_eq, hasNil_locs_cons (σ := σ) f (g :: r) d hok.shape]
     simp only [Bool.false_eq_true, if_false]
     apply mapKids_congr d (WF_top d hw)
     intro l c hc
     by_cases hl : l ∈ modSteps dev f d
     · have hsel := (hok.mem l c hc).1 hl
-      rw [updAll_congr m.eff c _ _ (strip_locs_sel f (g :: r) d hok.shape l c hc hsel)]
+      rw [updAll_congr m.eff c _ _ (strip_locs_sel (σ := σ) f (g :: r) d hok.shape l c hc hsel)]
       by_cases hp : pass (contOnly f) c = true
       · simp only [hl, hp, and_self, if_true]
         rw [modF_eq dev m (g :: r) (by simp) (fun f' hf' => hnd' f' (List.mem_cons_of_mem _ hf')) false c
@@ -403,9 +405,9 @@ theorem modF_eq (dev : Dev) (m : Modifier) : ∀ (x : List Frag), x ≠ [] → N
           simp only [pass, Bool.not_eq_true', Bool.not_eq_false, Bool.and_eq_true, Bool.not_eq_true'] at hp
           exact hp.2
         simp only [hl, hp, and_false, Bool.false_eq_true, if_false]
-        rw [locs_scalar g r c hndg hsc, updAll_nil]
-    · have hsel : ([l], c) ∉ sel f d := fun h => hl ((hok.mem l c hc).2 h)
-      rw [updAll_congr m.eff c _ _ (strip_locs_not f (g :: r) d hok.shape l c hc hsel), updAll_nil]
+        rw [locs_scalar (σ := σ) g r c hndg hsc, updAll_nil]
+    · have hsel : ([l], c) ∉ selG σ f d := fun h => hl ((hok.mem l c hc).2 h)
+      rw [updAll_congr m.eff c _ _ (strip_locs_not (σ := σ) f (g :: r) d hok.shape l c hc hsel), updAll_nil]
       simp [hl]
 
 theorem NoDescent.last {x : List Frag} (h : NoDescent x) : isDescent x.getLast? = false := by
@@ -418,12 +420,12 @@ theorem NoDescent.last {x : List Frag} (h : NoDescent x) : isDescent x.getLast? 
 /-- Modify on simple data, a path without descent: the returned tree is the input edited with the modifier
 at exactly the selected locations -/
 theorem modifyM_eq (dev : Dev) (m : Modifier) (x : List Frag) (d : JV) (hnd : NoDescent x) (hw : WF d)
-    (hg : GoodPath dev x d) (hroot : ¬ (x = [] ∧ dev.rootScalar = true ∧ isContainer d = false)) :
-    modifyM false dev false m x d = .ok (updAll m.eff (locs x d) d) := by
+    (hg : GoodPath σ dev x d) (hroot : ¬ (x = [] ∧ dev.rootScalar = true ∧ isContainer d = false)) :
+    modifyM false dev false m x d = .ok (updAll m.eff (locsG σ x d) d) := by
   have hwrap : WF (.arr [d]) := by simp [WF, WFL, hw]
-  have hsel0 : sel (.nth 0) (.arr [d]) = [([.idx 0], d)] := by
-    simp [sel, selMember, absIdx]
-  have hgp : GoodPath dev (.nth 0 :: x) (.arr [d]) := by
+  have hsel0 : selG σ (.nth 0) (.arr [d]) = [([.idx 0], d)] := by
+    simp [selG, sel, selMember, absIdx]
+  have hgp : GoodPath σ dev (.nth 0 :: x) (.arr [d]) := by
     refine ⟨trivial, ?_⟩
     intro m' hm'
     rw [hsel0] at hm'
@@ -436,16 +438,16 @@ theorem modifyM_eq (dev : Dev) (m : Modifier) (x : List Frag) (d : JV) (hnd : No
     · rfl
     · exact hnd f hf
   have hmain := modF_eq dev m (.nth 0 :: x) (by simp) hndw false (.arr [d]) hwrap hgp
-  have hshape : Shape (.nth 0) (.arr [d]) := by
+  have hshape : Shape σ (.nth 0) (.arr [d]) := by
     intro m' hm'
     rw [hsel0] at hm'
     simp only [List.mem_singleton] at hm'
     subst hm'
     exact ⟨.idx 0, rfl, rfl⟩
-  have hres : updAll m.eff (locs (.nth 0 :: x) (.arr [d])) (.arr [d]) = .arr [updAll m.eff (locs x d) d] := by
-    rw [updAll_eq, hasNil_locs_cons (.nth 0) x (.arr [d]) hshape]
+  have hres : updAll m.eff (locsG σ (.nth 0 :: x) (.arr [d])) (.arr [d]) = .arr [updAll m.eff (locsG σ x d) d] := by
+    rw [updAll_eq, hasNil_locs_cons (σ := σ) (.nth 0) x (.arr [d]) hshape]
     simp only [Bool.false_eq_true, if_false, mapKids, mapArr]
-    rw [updAll_congr m.eff d _ _ (strip_locs_sel (.nth 0) x (.arr [d]) hshape (.idx 0) d rfl (by rw [hsel0]; simp))]
+    rw [updAll_congr m.eff d _ _ (strip_locs_sel (σ := σ) (.nth 0) x (.arr [d]) hshape (.idx 0) d rfl (by rw [hsel0]; simp))]
   simp only [modifyM, modifyCore, hnd.last, Bool.false_eq_true, if_false, Bool.false_and]
   have hr : (x.isEmpty && dev.rootScalar && !isContainer d) = false := by
     cases hx : x.isEmpty <;> cases hr : dev.rootScalar <;> cases hc : isContainer d <;> simp_all
